@@ -108,4 +108,24 @@ impl Prop for C15 {
         }
         Ok(Input { stream, cap, extra: kv.get_u("extra")? as usize })
     }
+
+    fn exhaustive_desc(tier: Tier) -> String {
+        let l = tier.pick(4, 5);
+        format!("all token sequences of length 1..={} over the 13-token alphabet of C02 ({} streams), each with the smallest fitting capacity", l, small_seq_total(l))
+    }
+
+    fn exhaustive(tier: Tier, shard: usize, nshards: usize, f: &mut dyn FnMut(&Input) -> bool) {
+        let l = tier.pick(4, 5);
+        let alpha = small_alphabet();
+        let total = small_seq_total(l);
+        let mut idx = shard as u64;
+        while idx < total {
+            let stream = small_seq_bytes(&alpha, l, idx);
+            let cap = cap_at_least(stream.len()).unwrap();
+            if !f(&Input { stream, cap, extra: 1 }) {
+                return;
+            }
+            idx += nshards as u64;
+        }
+    }
 }
